@@ -18,6 +18,7 @@ import (
 
 	"github.com/cloudwego/dynamicgo/conv"
 	"github.com/cloudwego/dynamicgo/conv/j2t"
+	"github.com/cloudwego/dynamicgo/conv/j2tportable"
 	"github.com/cloudwego/dynamicgo/internal/caching"
 	"github.com/cloudwego/dynamicgo/meta"
 	"github.com/cloudwego/dynamicgo/thrift"
@@ -1122,6 +1123,29 @@ func c02Run(r *rng, cv *j2t.BinaryConv, desc *thrift.TypeDescriptor, doc []byte,
 	return res
 }
 
+// check 211: the portable converter (conv/j2tportable = conv/j2t/impl_fallback.go) on the same document, judged by the
+// algorithm-level model J2TWalk.j2t_walk
+func c02EmitPortable(bits int, doc []byte, desc *thrift.TypeDescriptor, dfs []string) {
+	opts := conv.Options{DisallowUnknownField: bits&1 != 0, String2Int64: bits&2 != 0, NoBase64Binary: bits&4 != 0, EnableValueMapping: bits&8 != 0,
+		WriteDefaultField: bits&16 != 0, WriteRequireField: bits&32 != 0, WriteOptionalField: bits&64 != 0}
+	cv := j2tportable.NewBinaryConv(opts)
+	var o []byte
+	var e error
+	ec := 0
+	if ok, msg := noPanic(func() { o, e = cv.Do(context.Background(), desc, doc) }); !ok {
+		ec = c02PanicClass(msg)
+		o = nil
+	} else {
+		ec = c02ErrClass(e)
+	}
+	if ec != 0 {
+		o = nil
+	}
+	f := append([]string(nil), dfs...)
+	f = append(f, fi(bits), fx(doc), fi(ec), fx(o))
+	out.emit(211, f...)
+}
+
 func (c *c02gen) emit(optBits int, oob int, doc []byte, res []c02res, desc []string) {
 	f := append([]string(nil), desc...)
 	f = append(f, fi(optBits), fi(oob), fx(doc), fi(len(res)))
@@ -1215,6 +1239,7 @@ func genC02(r *rng, n int) {
 			}
 			res := c02Run(r, &cv, desc, doc, true)
 			c.emit(optBits, c.oobLookups(p.skeys), doc, res, dfs)
+			c02EmitPortable(optBits, doc, desc, dfs)
 			docs++
 			if stream >= 78 && stream < 88 && len(doc) > 0 { // truncations of the same document
 				cuts := []int{0, 1, len(doc) - 1, len(doc) / 2}
@@ -1230,6 +1255,7 @@ func genC02(r *rng, n int) {
 					last = cut
 					d2 := append([]byte(nil), doc[:cut]...)
 					c.emit(optBits, c.oobLookups(p.skeys), d2, c02Run(r, &cv, desc, d2, false), dfs)
+					c02EmitPortable(optBits, d2, desc, dfs)
 					docs++
 				}
 			}
